@@ -33,6 +33,11 @@ type c11AttrSet struct {
 	LL      bool     `json:"ll"`      // add link-local next hop (v6 families)
 	LLIdx   int      `json:"ll_idx"`  // which link-local address (independent of the global next hop)
 	SameKey bool     `json:"same_key"` // force the batching hash of this set onto a shared value
+	// Arrive: how the attribute objects came to be (what is packed is what the path holds, but the objects have a history):
+	// 0 built by the constructors; 1 decoded from the wire of a peer without the 4-octet-AS capability and
+	// reconstructed (RFC 6793); 2 decoded from the wire; 3 edited through the Path API after creation (AS prepended,
+	// as every export to an external peer does)
+	Arrive int `json:"arrive,omitempty"`
 }
 
 type c11Change struct {
@@ -89,6 +94,10 @@ func drawC11(t *rapid.T) c11Case {
 			s.PadFit = rapid.SampledFrom([]int{99, 99, 1, 2, 3, 4, 5, 6, 8, 9, 10, 12, 16, 40, 64, -1, -2, -5, -9, -40, -1000}).Draw(t, l+"fit")
 		}
 		s.SameKey = rapid.IntRange(0, 4).Draw(t, l+"samekey") == 0
+		s.Arrive = rapid.SampledFrom([]int{0, 0, 1, 2, 3, 3}).Draw(t, l+"arrive")
+		if s.Arrive == 1 && len(s.ASPath) > 0 && rapid.Bool().Draw(t, l+"wide") {
+			s.ASPath[len(s.ASPath)/2] = 4200000001
+		}
 		c.Sets = append(c.Sets, s)
 	}
 	// near-twin sets: identical except for one next-hop detail, so that grouping keys are put to the test
@@ -227,6 +236,45 @@ func c11Attrs(fam int, s c11AttrSet, pad int) []bgp.PathAttributeInterface {
 	return attrs
 }
 
+// c11Final gives the attribute objects of a set the history its Arrive says (the values stay what c11Attrs built,
+// except for the prepended AS numbers of mode 3).
+func c11Final(fam int, s c11AttrSet, pad int) []bgp.PathAttributeInterface {
+	attrs := c11Attrs(fam, s, pad)
+	switch s.Arrive {
+	case 1, 2:
+		old := s.Arrive == 1
+		msg := bgp.NewBGPUpdateMessage(nil, attrs, nil)
+		if old {
+			body := msg.Body.(*bgp.BGPUpdate)
+			UpdatePathAttrs2ByteAs(body)
+			UpdatePathAggregator2ByteAs(body)
+		}
+		wire, err := msg.Serialize(&bgp.MarshallingOption{ExtendedMessage: true})
+		if err != nil {
+			return attrs
+		}
+		rx, err := bgp.ParseBGPMessage(wire, &bgp.MarshallingOption{Use2ByteAS: old, ExtendedMessage: true})
+		if err != nil {
+			return attrs
+		}
+		body := rx.Body.(*bgp.BGPUpdate)
+		if old {
+			UpdatePathAttrs4ByteAs(c14Logger, body)
+			if UpdatePathAggregator4ByteAs(body) != nil {
+				return attrs
+			}
+		}
+		return body.PathAttributes
+	case 3:
+		nlri, _ := bgp.NewIPAddrPrefix(netip.MustParsePrefix("198.51.100.0/24"))
+		tmp := NewPath(bgp.RF_IPv4_UC, &PeerInfo{AS: 65001, LocalAS: 65000, ID: netip.MustParseAddr("10.0.0.1"), Address: netip.MustParseAddr("10.0.0.1")},
+			bgp.PathNLRI{NLRI: nlri}, false, attrs, time.Unix(1, 0), false)
+		tmp.PrependAsn(64999, uint8(1+s.Origin), false)
+		return tmp.GetPathAttrs()
+	}
+	return attrs
+}
+
 func c11AttrBytes(attrs []bgp.PathAttributeInterface) []byte {
 	var out []byte
 	for _, a := range attrs {
@@ -324,7 +372,7 @@ func runC11(c c11Case, st *verifkit.Stats) *verifkit.Failure {
 		if s.PadFit == 0 {
 			return s.Pad
 		}
-		base := c11SingleSize(fam, c11NLRI(fam, 0), c11Attrs(fam, s, 0), c11NextHops(fam, s), c.AddPath)
+		base := c11SingleSize(fam, c11NLRI(fam, 0), c11Final(fam, s, 0), c11NextHops(fam, s), c.AddPath)
 		// padding attribute costs 4 (ext header) + pad when pad > 255, 3 + pad otherwise
 		fit := s.PadFit
 		if fit == 99 {
@@ -359,7 +407,7 @@ func runC11(c c11Case, st *verifkit.Stats) *verifkit.Failure {
 	mk := func(fam int, nlri bgp.NLRI, id int, withdraw bool, s c11AttrSet) {
 		f := c11Families[fam]
 		pad := padFor(fam, s)
-		attrs := c11Attrs(fam, s, pad)
+		attrs := c11Final(fam, s, pad)
 		nhs := c11NextHops(fam, s)
 		pathAttrs := attrs
 		if fam != 0 {
@@ -572,6 +620,11 @@ func runC11(c c11Case, st *verifkit.Stats) *verifkit.Failure {
 	}
 	if c.ExtMsg {
 		st.Label("ext-msg")
+	}
+	for _, x := range c.Sets {
+		if x.Arrive != 0 {
+			st.Label(fmt.Sprintf("arrive-%d", x.Arrive))
+		}
 	}
 	if opt.AddPath != nil {
 		st.Label(fmt.Sprintf("add-path-dir-%d", c.AddPathDir))
